@@ -35,6 +35,11 @@ type Channel struct {
 	// using the channel when closing it.
 	sync.RWMutex
 	closed bool
+	// closing is closed when Close starts to tear the channel down. It
+	// wakes up goroutines that wait for or on the package and error
+	// channels while holding the read lock.
+	closing     chan struct{}
+	closingOnce sync.Once
 
 	channelId int
 
@@ -96,6 +101,7 @@ func (tds *Conn) NewChannel() (*Channel, error) {
 		queueTx:            NewPacketQueue(tds.PacketSize),
 		packageCh:          make(chan Package, tds.info.ChannelPackageQueueSize),
 		errCh:              make(chan error, 10),
+		closing:            make(chan struct{}),
 	}
 
 	tds.tdsChannels[channelId] = tdsChan
@@ -195,6 +201,11 @@ func (tdsChan *Channel) Close() error {
 
 		// TODO process ack packet
 	}
+
+	// Goroutines receiving from the channel and the reader goroutine
+	// queueing packages into a full channel hold the read lock while
+	// they wait - wake them up or the write lock is never acquired.
+	tdsChan.closingOnce.Do(func() { close(tdsChan.closing) })
 
 	// Lock the channel and store the closed indicator.
 	tdsChan.Lock()
@@ -366,6 +377,8 @@ func (tdsChan *Channel) NextPackage(ctx context.Context, wait bool) (Package, er
 		return pkg, nil
 	case err := <-ch:
 		return nil, err
+	case <-tdsChan.closing:
+		return nil, ErrChannelClosed
 	}
 }
 
@@ -633,7 +646,7 @@ func (tdsChan *Channel) WritePacket(packet *Packet) {
 	// after a response whose length is a multiple of the packet size)
 	// and are handled like any other response packet.
 	if packet.Header.Length == PacketHeaderSize && packet.Header.MsgType != TDS_BUF_RESPONSE {
-		tdsChan.packageCh <- &HeaderOnlyPackage{Header: packet.Header}
+		tdsChan.queuePackage(&HeaderOnlyPackage{Header: packet.Header})
 		return
 	}
 
@@ -664,6 +677,27 @@ func (tdsChan *Channel) WritePacket(packet *Packet) {
 	}
 }
 
+// queuePackage passes a package to the consumers of the channel.
+// It returns false if the channel is closed before the package could be
+// queued.
+func (tdsChan *Channel) queuePackage(pkg Package) bool {
+	select {
+	case tdsChan.packageCh <- pkg:
+		return true
+	case <-tdsChan.closing:
+		return false
+	}
+}
+
+// queueError passes an error to the consumers of the channel unless the
+// channel is closed before it could be queued.
+func (tdsChan *Channel) queueError(err error) {
+	select {
+	case tdsChan.errCh <- err:
+	case <-tdsChan.closing:
+	}
+}
+
 // tryParsePackage attempts to parse a Package from the queued Packets.
 func (tdsChan *Channel) tryParsePackage() bool {
 	// Attempt to process data from channel into a Package.
@@ -676,7 +710,7 @@ func (tdsChan *Channel) tryParsePackage() bool {
 			// - usually only when a procedure with multiple commands is
 			// being executed.
 			if !tdsChan.rxDoneFinal {
-				tdsChan.packageCh <- &DonePackage{Status: TDS_DONE_FINAL}
+				tdsChan.queuePackage(&DonePackage{Status: TDS_DONE_FINAL})
 			}
 			// The next package belongs to the next response.
 			tdsChan.rxDoneFinal = false
@@ -687,7 +721,7 @@ func (tdsChan *Channel) tryParsePackage() bool {
 	// Create Package.
 	pkg, err := LookupPackage(Token(tokenByte))
 	if err != nil {
-		tdsChan.errCh <- err
+		tdsChan.queueError(err)
 		return false
 	}
 
@@ -698,7 +732,7 @@ func (tdsChan *Channel) tryParsePackage() bool {
 
 	if acceptor, ok := pkg.(LastPkgAcceptor); ok {
 		if err := acceptor.LastPkg(tdsChan.lastPkgRx); err != nil {
-			tdsChan.errCh <- fmt.Errorf("error in LastPkg: %w", err)
+			tdsChan.queueError(fmt.Errorf("error in LastPkg: %w", err))
 			return false
 		}
 	}
@@ -711,7 +745,7 @@ func (tdsChan *Channel) tryParsePackage() bool {
 		}
 
 		// Parsing went wrong, record as error
-		tdsChan.errCh <- fmt.Errorf("error parsing package %T: %w", pkg, err)
+		tdsChan.queueError(fmt.Errorf("error parsing package %T: %w", pkg, err))
 		return false
 	}
 
@@ -721,7 +755,7 @@ func (tdsChan *Channel) tryParsePackage() bool {
 
 	pass, err := tdsChan.handleSpecialPackage(pkg)
 	if err != nil {
-		tdsChan.errCh <- fmt.Errorf("error while handling special package: %w", err)
+		tdsChan.queueError(fmt.Errorf("error while handling special package: %w", err))
 		// Package handling errored, but the package could be parsed.
 		// Continue.
 		return true
@@ -732,7 +766,10 @@ func (tdsChan *Channel) tryParsePackage() bool {
 		return true
 	}
 
-	tdsChan.packageCh <- pkg
+	if !tdsChan.queuePackage(pkg) {
+		// The channel is being closed.
+		return false
+	}
 	tdsChan.rxDoneFinal, _ = isDoneFinal(pkg)
 	// Messages can be sent between a format and its data packages and
 	// must not replace the format as the last received package.
